@@ -88,7 +88,10 @@ class Model:
             with open(path, encoding="utf-8") as f:
                 src = f.read()
             try:
-                tree = ast.parse(src, filename=path)
+                import warnings
+                with warnings.catch_warnings():
+                    warnings.simplefilter("ignore", SyntaxWarning)
+                    tree = ast.parse(src, filename=path)
             except SyntaxError as e:
                 raise AnalysisError(f"unit {path} does not parse: {e}")
             m = Module(name, path, src, tree)
